@@ -318,6 +318,161 @@ theorem head_qn_monotone {T : Nat → Option Block} (vt : ValidTree T) (fuel : N
     · omega
     · omega
 
+/-! ## the tie-break order and the header request id (pure functions on the path) -/
+
+/-- **pvGreater is a strict total order on (prove value, hash)** — `chainPvGreatThanRemote`: irreflexive,
+    asymmetric, transitive, and two blocks neither of which beats the other agree on prove value and hash. So
+    the fork-point tie-break of `WeightGE` is a well-defined order: no cycle of equal-QN forks can replace each
+    other in turn. -/
+theorem pvGreater_strict_order (a b c : Block) :
+    pvGreater a a = false ∧
+    (pvGreater a b = true → pvGreater b a = false) ∧
+    (pvGreater a b = true → pvGreater b c = true → pvGreater a c = true) ∧
+    (pvGreater a b = false → pvGreater b a = false → a.pv = b.pv ∧ a.hash = b.hash) := by
+  unfold pvGreater
+  refine ⟨?_, ?_, ?_, ?_⟩
+  · simp
+  · intro h
+    by_cases x1 : a.pv > b.pv
+    · have y1 : ¬ b.pv > a.pv := by omega
+      have y2 : b.pv < a.pv := by omega
+      simp [y1, y2]
+    · by_cases x2 : a.pv < b.pv
+      · simp [x1, x2] at h
+      · simp [x1, x2] at h
+        have y1 : ¬ b.pv > a.pv := by omega
+        have y2 : ¬ b.pv < a.pv := by omega
+        simp [y1, y2]; omega
+  · intro h1 h2
+    by_cases x1 : a.pv > b.pv
+    · by_cases x2 : b.pv > c.pv
+      · have : a.pv > c.pv := by omega
+        simp [this]
+      · by_cases x3 : b.pv < c.pv
+        · simp [x2, x3] at h2
+        · have e : b.pv = c.pv := by omega
+          have : a.pv > c.pv := by omega
+          simp [this]
+    · by_cases x1' : a.pv < b.pv
+      · simp [x1, x1'] at h1
+      · have e : a.pv = b.pv := by omega
+        simp [x1, x1'] at h1
+        by_cases x2 : b.pv > c.pv
+        · have : a.pv > c.pv := by omega
+          simp [this]
+        · by_cases x3 : b.pv < c.pv
+          · simp [x2, x3] at h2
+          · simp [x2, x3] at h2
+            have e2 : a.pv = c.pv := by omega
+            have n1 : ¬ a.pv > c.pv := by omega
+            have n2 : ¬ a.pv < c.pv := by omega
+            simp [n1, n2]; omega
+  · intro h1 h2
+    by_cases x1 : a.pv > b.pv
+    · simp [x1] at h1
+    · by_cases x2 : a.pv < b.pv
+      · have : b.pv > a.pv := x2
+        simp [this] at h2
+      · have e : a.pv = b.pv := by omega
+        have y1 : ¬ b.pv > a.pv := by omega
+        have y2 : ¬ b.pv < a.pv := by omega
+        simp [x1, x2] at h1
+        simp [y1, y2] at h2
+        exact ⟨e, by omega⟩
+
+/-- **requestIdFrom** (`getRequestIdFromTransactions`): the header request id never goes below the parent's, is
+    the parent's or one of the block's transaction request ids, and dominates every transaction request id that
+    is non-zero … i.e. it is `max(parent, max of the transactions)`. -/
+theorem requestIdFrom_spec (reqs : List Nat) (last : Nat) :
+    last ≤ requestIdFrom reqs last ∧
+    (∀ r ∈ reqs, r ≤ requestIdFrom reqs last) ∧
+    (requestIdFrom reqs last = last ∨ requestIdFrom reqs last ∈ reqs) := by
+  have key : ∀ (l : List Nat) (acc : Nat),
+      acc ≤ l.foldl (fun acc r => if r > acc then r else acc) acc ∧
+      (∀ r ∈ l, r ≤ l.foldl (fun acc r => if r > acc then r else acc) acc) ∧
+      (l.foldl (fun acc r => if r > acc then r else acc) acc = acc ∨
+        l.foldl (fun acc r => if r > acc then r else acc) acc ∈ l) := by
+    intro l
+    induction l with
+    | nil => intro acc; simp
+    | cons x xs ih =>
+      intro acc
+      simp only [List.foldl_cons]
+      by_cases hx : x > acc
+      · simp only [hx, if_true]
+        obtain ⟨h1, h2, h3⟩ := ih x
+        refine ⟨by omega, ?_, ?_⟩
+        · intro r hr
+          rcases List.mem_cons.mp hr with e | e
+          · subst e; exact h1
+          · exact h2 r e
+        · rcases h3 with e | e
+          · rw [e]; exact Or.inr (List.mem_cons_self ..)
+          · exact Or.inr (List.mem_cons_of_mem _ e)
+      · simp only [hx, if_false]
+        obtain ⟨h1, h2, h3⟩ := ih acc
+        refine ⟨h1, ?_, ?_⟩
+        · intro r hr
+          rcases List.mem_cons.mp hr with e | e
+          · subst e; omega
+          · exact h2 r e
+        · rcases h3 with e | e
+          · exact Or.inl e
+          · exact Or.inr (List.mem_cons_of_mem _ e)
+  obtain ⟨_, k2, k3⟩ := key reqs 0
+  unfold requestIdFrom
+  simp only
+  split
+  · rename_i h
+    refine ⟨by omega, k2, ?_⟩
+    rcases k3 with e | e
+    · exact absurd e h.1
+    · exact Or.inr e
+  · rename_i h
+    refine ⟨Nat.le_refl _, ?_, Or.inl rfl⟩
+    intro r hr
+    have := k2 r hr
+    by_cases z : reqs.foldl (fun acc r => if r > acc then r else acc) 0 = 0
+    · omega
+    · have : ¬ reqs.foldl (fun acc r => if r > acc then r else acc) 0 > last := fun g => h ⟨z, g⟩
+      omega
+
+/-- A block whose header request id is not the one its transactions and its parent justify is rejected by
+    `verifyBlock` (unless its verification is cached) and nothing changes. -/
+theorem verify_rejects_bad_request_id (s : St) (b pre : Block) (hc : s.mem.verified.contains b.hash = false)
+    (hp : s.disk.blocks b.pre = some pre) (hr : requestIdFrom b.txReqs pre.reqId ≠ b.reqId) :
+    (verify s b).2 = false ∧ (verify s b).1.disk = s.disk ∧ (verify s b).1.mem.verified = s.mem.verified := by
+  have hreq : (requestIdFrom b.txReqs pre.reqId != b.reqId) = true := by simpa using hr
+  unfold verify
+  rw [if_neg (by rw [hc]; simp)]
+  simp only [hp]
+  split
+  · exact ⟨rfl, rfl, rfl⟩
+  · first
+    | exact ⟨rfl, rfl, rfl⟩
+    | (rw [if_pos hreq]; exact ⟨rfl, rfl, rfl⟩)
+
+/-- **nextPvGreatThanFork** (the fork switch's tie guard): it lets an equal-QN fork through only if both
+    branches have a block right above the common ancestor and the local one does not beat the fork's on
+    (prove value, hash). -/
+theorem nextPvGreatThanFork_false_iff (localLatest : Nat) (localNext : Option Block) (anc : Block) (forkLatest : Nat)
+    (forkNext : Option Block) :
+    nextPvGreatThanFork localLatest localNext anc forkLatest forkNext = false ↔
+      anc.height < forkLatest ∧ anc.height < localLatest ∧
+      ∃ f c, forkNext = some f ∧ localNext = some c ∧ pvGreater c f = false := by
+  unfold nextPvGreatThanFork
+  constructor
+  · intro h
+    split at h
+    · rename_i hg
+      split at h
+      · rename_i f c
+        exact ⟨hg.1, hg.2, f, c, rfl, rfl, h⟩
+      · cases h
+    · cases h
+  · rintro ⟨h1, h2, f, c, rfl, rfl, hp⟩
+    simp [h1, h2, hp]
+
 /-! ## the sync fork switch (`blockChainFork.triggerOnChain`), the second block-adding path -/
 
 /-- **fork_switch_inv.** The fork switch — `removeFromCommonAncestor` called directly, then the fork's blocks
@@ -497,5 +652,53 @@ example : ¬ WeightGE [wL2, wL1, wA] [wC 500, wA] := by
 theorem fork_switch_can_lower_head :
     ∃ (s : St) (anc : Block), Safe s ∧ (forkSwitch 4 s anc []).mem.latest.totalQN < s.mem.latest.totalQN :=
   ⟨insertB (insertA (genesisState exG) exB1) exB1, exG, ⟨rfl, rfl⟩, by decide⟩
+
+/-- non-vacuity of the new pure-function theorems -/
+example : pvGreater { exB1 with pv := 9 } exB1 = true ∧ pvGreater exB1 { exB1 with hash := 1 } = true := by decide
+example : requestIdFrom [0, 7, 3] 5 = 7 ∧ requestIdFrom [0, 3] 5 = 5 ∧ requestIdFrom [] 0 = 0 := by decide
+example : nextPvGreatThanFork 3 (some exB1) exG 2 (some { exB1 with pv := 9 }) = false := by decide
+
+/-! ## the hypotheses of `ValidTree` are needed: what the store does when consensus does not enforce them
+
+`core` itself checks none of the three `ValidTree` conditions (height above the parent's, cumulative QN not below
+the parent's, no transaction of an ancestor repeated); the consensus layer does (`VerifyNewBlock`), and
+Proposal008 does the third at verification time. With consensus stubbed to accept, the real store behaves as the
+model below — replayed by `corpus/C05/11…13` (monitor off, correspondence on): documented quirks, not findings,
+since the property quantifies over trees of VALID blocks. -/
+
+def twoChain : St := insertB (insertA (genesisState exG) exB1) exB1
+def sameHeight : Block := { hash := 9, pre := 2, height := 1, totalQN := 2, pv := 1, txs := [], valid := true }
+def lowerQN : Block := { hash := 9, pre := 2, height := 2, totalQN := 0, pv := 1, txs := [], valid := true }
+def repeatsTx : Block := { hash := 9, pre := 2, height := 2, totalQN := 2, pv := 1, txs := [7], valid := true }
+
+/-- Without "child higher than parent": an extension at its parent's height overwrites the parent's slot of the
+    height index; no chain satisfies the invariant afterwards. -/
+theorem inv_add_needs_height_counterexample :
+    ¬ ∃ c, ChainInv (addBlock 4 twoChain sameHeight).1.disk c := by
+  rintro ⟨c, ci⟩
+  have hb : (addBlock 4 twoChain sameHeight).1.disk.blocks 2 = some exB1 := by decide
+  have hh : (addBlock 4 twoChain sameHeight).1.disk.heights 1 = some sameHeight := by decide
+  have hm := (ci.blocks_only 2 exB1 hb).1
+  have := ci.heights_mem exB1 hm
+  have e : exB1.height = 1 := rfl
+  rw [e, hh] at this
+  exact absurd this (by decide)
+
+/-- Without "cumulative QN not below the parent's": an extension with a lower TotalQN is accepted and the head's
+    cumulative QN decreases (`head_qn_monotone` fails). -/
+theorem head_qn_needs_valid_qn_counterexample :
+    (addBlock 4 twoChain lowerQN).1.mem.latest.totalQN < twoChain.mem.latest.totalQN := by decide
+
+/-- Without "no ancestor transaction repeated" (and before Proposal008, which otherwise rejects the block): the
+    executed record of the transaction moves to the later block and the pool clause fails for the ancestor. -/
+theorem pool_needs_txfresh_counterexample :
+    ¬ ∃ c, ChainInv (addBlock 4 { twoChain with p008 := false } repeatsTx).1.disk c := by
+  rintro ⟨c, ci⟩
+  have hb : (addBlock 4 { twoChain with p008 := false } repeatsTx).1.disk.blocks 2 = some exB1 := by decide
+  have he : (addBlock 4 { twoChain with p008 := false } repeatsTx).1.disk.executed 7 = some 9 := by decide
+  have hm := (ci.blocks_only 2 exB1 hb).1
+  have := ci.exec_mem exB1 hm 7 (by decide)
+  rw [he] at this
+  exact absurd this (by decide)
 
 end Rangers.Props.C05
